@@ -78,6 +78,7 @@ def showL {α} [ToString α] (l : List α) : String := " ".intercalate (l.map to
 def showB (l : List Bool) : String := showL (l.map fun b => if b then 1 else 0)
 def errS : Err → String
   | .value => "value-error" | .index => "index-error" | .key => "key-error" | .type => "type-error"
+  | .recursion => "recursion-error"
 def flat2 (l : List (Nat × Nat)) : List Nat := l.flatMap fun p => [p.1, p.2]
 
 /-- `mkusetmask(str)`: split on '+', every piece must be a key. -/
@@ -151,7 +152,7 @@ def answer (line : String) : String :=
       match se.toNat?, nasOf sl us dn mp up with
       | some se, some nas =>
           let m := Generated.UsetMask.mask
-          reply (upqsetpv (m .a) (m .q) (m .p) nas (nas.selist.length + 2) se) showB
+          reply (upqsetpv (m .a) (m .q) (m .p) nas (nas.selist.length + 1) se) showB
       | _, _ => "bad-op"
   | ["dups", tol], [v] =>
       match tol.toInt?, ints v with
